@@ -2,6 +2,8 @@ package path
 
 import (
 	"errors"
+	"fmt"
+	"strings"
 )
 
 func build(source string, parsed any) PropertyPath {
@@ -52,9 +54,14 @@ func ParsePath(path string) (PropertyPath, error) {
 			},
 		}, nil
 	}
-	parsed, err := Parse("", []byte(path))
+	p := newParser("", []byte(path))
+	parsed, err := p.parse(g)
 	if err != nil {
 		return nil, err
+	}
+	// the grammar has no end-of-input anchor: make sure the whole string was a path
+	if rest := strings.TrimRight(path[p.pt.offset:], " \n\t\r"); rest != "" {
+		return nil, fmt.Errorf("invalid property path '%s': unexpected '%s' at offset %d", path, rest, p.pt.offset)
 	}
 
 	propertyPath := build(path, parsed)
